@@ -326,6 +326,9 @@ class Interp:
             m = base.lookup(attr)
             if m is not None:
                 return BoundMethod(m, base) if m.is_classmethod else m
+            if attr == "__members__":
+                # enum class: member name -> member, in definition order
+                return {n: self.class_member(base, n, node) for n in base.class_assigns() if not n.startswith("_")}
             if attr == "__name__":
                 return base.name
             raise Undecided(f"class attribute {base.name}.{attr}")
@@ -1030,6 +1033,8 @@ class Interp:
                 ty = {"int": int, "str": str, "float": float, "bool": bool, "list": list, "tuple": tuple, "dict": dict, "set": set}.get(kk.name[8:])
                 if ty is None:
                     return self.isinstance_hook(v, k, node)
+                if isinstance(v, (EnumSym, Obj)) and not any((dotted(b) or "").split(".")[-1] in ("str", "int", "float", "IntEnum", "StrEnum", "IntFlag") for c_ in v.cls.mro() for b in c_.node.bases):
+                    continue  # an object of a package class (enum member, config object) is no str/int/list ...
                 if isinstance(v, (Unknown, Sym, Obj)) or not isinstance(v, CONCRETE):
                     r = self.isinstance_hook(v, k, node)
                     if isinstance(r, bool):
